@@ -39,7 +39,7 @@ class H(Hooks):
             if name == "functions":
                 return ("list", [("afun",), ("afun", 2)])       # the second function must get its own blocks and start block
             if name == "capabilities":
-                return ("list", [I("CAP0"), I("CAP1")])
+                return ("list", [I("CAP0"), I("CAP1"), I("CAP0")])        # a capability declared twice stays declared twice
             if name == "memory_model":
                 return ("some", I("MM"))
             if name == "header":
@@ -90,6 +90,9 @@ class H(Hooks):
         return NotImplemented
 
     def call(self, p, args, e):
+        if p == "Default::default:of" and len(args) == 1 and isinstance(args[0], tuple) and args[0] and args[0][0] == "storage":
+            self.nstor += 1
+            return ("storage", self.nstor)
         if p.endswith("LiftStorage::new") and not args:
             self.nstor += 1
             return ("storage", self.nstor)
